@@ -80,7 +80,7 @@ def gen_case(rng):
             bench.append(b)
         if rng.random() < 0.1:
             bench = [int(round(v)) for v in bench]
-    return dict(start_day=d0, equity=eq, periods=rng.choice([252, 252, 252, 12, 52, 365.25, 252 * 6.5, 50.4, 252 / 5.0, 260.714]), scale=rng.choice([2.0, 0.5, 1000.0, 3.7]), mode=mode,
+    return dict(late_alloc=rng.random() < 0.3, start_day=d0, equity=eq, periods=rng.choice([252, 252, 252, 12, 52, 365.25, 252 * 6.5, 50.4, 252 / 5.0, 260.714]), scale=rng.choice([2.0, 0.5, 1000.0, 3.7]), mode=mode,
                 benchmark=bench)
 
 
@@ -108,7 +108,9 @@ def real_stats(case, eq):
 def execute(case):
     res, df = real_stats(case, case['equity'])
     # the two reporters
-    alloc = pd.DataFrame({'EQ:AAA': [1.0] * len(df)}, index=df.index)
+    # the allocation table handed to the JSON reporter need not cover the whole curve (first rebalance later than the first point)
+    k0 = (len(df) // 3) if case.get('late_alloc') else 0
+    alloc = pd.DataFrame({'EQ:AAA': [1.0] * (len(df) - k0)}, index=df.index[k0:])
     bdf = None
     if case.get('benchmark'):
         res['bench'], bdf = real_stats(case, case['benchmark'])
